@@ -42,11 +42,13 @@ type thread struct {
 	spins    int
 	lastPanicSite string
 	hpoints       int // harness-level scheduling points passed (vGo, vYield, vQuiesce)
+	lpoints       int // library-level points passed that the native sync/atomic shim reproduces
 }
 
 type switchEv struct {
 	From   int    `json:"from"`
 	H      int    `json:"h"`
+	L      int    `json:"l"`
 	Reason string `json:"reason"`
 	To     int    `json:"to"`
 }
@@ -118,7 +120,7 @@ func (t *thread) main(body func(fr *frame)) {
 	}
 	r.cur = next
 	r.schedLog = append(r.schedLog, next.id)
-	r.switches = append(r.switches, switchEv{t.id, t.hpoints, "end", next.id})
+	r.switches = append(r.switches, switchEv{t.id, t.hpoints, t.lpoints, "end", next.id})
 	next.resume <- struct{}{}
 }
 
@@ -182,14 +184,29 @@ func (t *thread) switchTo(u *thread, reason string) {
 	}
 	t.r.cur = u
 	t.r.schedLog = append(t.r.schedLog, u.id)
-	t.r.switches = append(t.r.switches, switchEv{t.id, t.hpoints, reason, u.id})
+	t.r.switches = append(t.r.switches, switchEv{t.id, t.hpoints, t.lpoints, reason, u.id})
 	u.resume <- struct{}{}
 	t.park()
 }
 
 // schedPoint is called before a visible operation: another enabled thread may
 // be scheduled first (one preemption).
-func (t *thread) schedPoint(kind string) {
+// schedPointAt is a scheduling point inside a modelled sync / sync/atomic operation called
+// from frame fr.  If the operation is called (possibly through the standard sync code) by a
+// package that native replays compile against the shims, the point is counted: a preemption
+// there can be placed natively ("lpreempt"); otherwise it is recorded as "cpreempt".
+func (t *thread) schedPointAt(fr *frame, kind string) {
+	if fr != nil && fr.i.countable(fr) {
+		t.lpoints++
+		t.schedPointK(kind, true)
+		return
+	}
+	t.schedPointK(kind, false)
+}
+
+func (t *thread) schedPoint(kind string) { t.schedPointK(kind, false) }
+
+func (t *thread) schedPointK(kind string, counted bool) {
 	r := t.r
 	if len(r.threads) == 1 {
 		return
@@ -212,10 +229,13 @@ func (t *thread) schedPoint(kind string) {
 		return
 	}
 	r.preemptions++
-	if kind == "go" {
+	switch {
+	case kind == "go":
 		t.switchTo(others[c-1], "go")
-	} else {
+	case counted:
 		t.switchTo(others[c-1], "lpreempt")
+	default:
+		t.switchTo(others[c-1], "cpreempt")
 	}
 }
 
@@ -308,16 +328,20 @@ func (r *run) deadlock() {
 }
 
 // spawn starts a new thread running fn(args).
-func (r *run) spawn(parent *thread, fn value, args []value, lib bool, origin string) *thread {
+func (r *run) spawn(parent *thread, fn value, args []value, lib bool, origin string, counted bool) *thread {
 	t := r.newThread(parent, lib, origin)
 	r.wg.Add(1)
 	go t.main(func(fr *frame) {
 		call(r.i, fr, 0, fn, args)
 	})
-	if lib {
-		parent.schedPoint("lgo")
-	} else {
+	switch {
+	case !lib:
 		parent.schedPoint("go")
+	case counted:
+		parent.lpoints++
+		parent.schedPointK("lgo", true)
+	default:
+		parent.schedPoint("lgo")
 	}
 	return t
 }
